@@ -121,7 +121,7 @@ def coq_audit_sources():
 
 PROP_FILES = {
     "C02": ["C02", "C02u"], "C07": ["C07", "C07u"], "C09": ["C09", "C09u"], "C16": ["C16", "C16b"],
-    "C18": ["C18", "C18b"], "C20": ["C20", "C20b"],
+    "C18": ["C18", "C18b"], "C20": ["C20", "C20b"], "C03": ["C03", "C03e"],
 }
 
 
@@ -328,6 +328,18 @@ def compare_case(case, rust, model):
             return None
         if rg is None or not rg:
             return "op %d: implementation produced no result, model %r" % (i, mg)
+        if st == 98:
+            # bytes after the writer was dropped / unwrapped; compared only where the model's flush succeeds
+            if len(mg) > 1 and mg[1] == 0:
+                if rg[0] != 98 or len(rg) < 2 or rg[1] != 0:
+                    return "dropping/unwrapping the writer failed: impl %r" % (rg[:4],)
+                mb, rb = mg[2:], rg[2:]
+                if case.wbackend == 1:
+                    if rb[:len(mb)] != mb or any(rb[len(mb):]):
+                        return "image after drop/into_inner differs: impl %r model %r" % (rb, mb)
+                elif rb != mb:
+                    return "image after drop/into_inner differs: impl %s model %s" % (" ".join("%02x" % x for x in rb), " ".join("%02x" % x for x in mb))
+            continue
         if st == 99:
             if rg[0] != 99:
                 return "final image missing: %r" % (rg,)
